@@ -42,6 +42,10 @@ def jobs(tier):
                        stubs=MPI, includes=incs, units=units + common, rename_defs=ren, unwind=unw, timeout=900,
                        desc=desc, functions=fns + ["ncmpii_error_mpi2nc"], bounds="nprocs<=4; every return code at every MPI-IO call",
                        assumptions=STUB_NOTE, findings=[kf] if kf else []))
+    from props.C16 import fillrec_jobs
+    out += fillrec_jobs(tier, 'C11.fill', inject=True)
+    from props.C16 import fillerup_jobs
+    out += fillerup_jobs(tier, 'C11.fill', inject=True)
     return out
 
 
